@@ -162,15 +162,17 @@ CylRows == <<
 >>
 
 ConicRows == <<
-  \* forward: the pole opposite to the cone is at infinity; inverse: signals non-convergence (no representative point)
+  \* forward: the pole opposite to the cone is at infinity; the pole at the apex of the cone is an ordinary point of the
+  \* domain, whatever the cone constant (n = 0.84, 0.63, -0.63: a test on lat * n would tell the cones apart);
+  \* inverse: signals non-convergence (no representative point)
   Inv("lcc_1sp", "lcc lat_1=57 lon_0=10",
       [PlaneF EXCEPT !.lim = TRUE, !.ins = <<PGeo, PNPole>>, !.out = << <<"12d", "-90d", "0", "2020">> >>, !.cor = << <<"12d", "91d", "0", "2020">> >>],
       [PlaneI EXCEPT !.lim = TRUE, !.ins = << <<"127900.0", "-221000.0", "100", "2020.5">> >>]),
   Inv("lcc_2sp", "lcc lat_1=33 lat_2=45 lon_0=10",
-      [PlaneF EXCEPT !.lim = TRUE, !.ins = <<PGeo>>, !.out = << <<"12d", "-90d", "0", "2020">> >>, !.cor = << <<"12d", "91d", "0", "2020">>, <<"12d", "90d", "0", "2020">> >>],
+      [PlaneF EXCEPT !.lim = TRUE, !.ins = <<PGeo, PNPole>>, !.out = << <<"12d", "-90d", "0", "2020">> >>, !.cor = << <<"12d", "91d", "0", "2020">>, <<"12d", "90d", "0", "2020">> >>],
       [PlaneI EXCEPT !.lim = TRUE, !.ins = << <<"132822.092", "6418684.236", "100", "2020.5">> >>]),
   Inv("lcc_south", "lcc lat_1=-33 lat_2=-45 lon_0=20",
-      [PlaneF EXCEPT !.lim = TRUE, !.ins = << <<"22d", "-33d", "50", "2015.25">> >>, !.out = << <<"12d", "90d", "0", "2020">> >>, !.cor = << <<"12d", "-91d", "0", "2020">>, <<"12d", "-90d", "0", "2020">> >>],
+      [PlaneF EXCEPT !.lim = TRUE, !.ins = << <<"22d", "-33d", "50", "2015.25">>, <<"12d", "-90d", "0", "2020">> >>, !.out = << <<"12d", "90d", "0", "2020">> >>, !.cor = << <<"12d", "-91d", "0", "2020">>, <<"12d", "-90d", "0", "2020">> >>],
       [PlaneI EXCEPT !.lim = TRUE, !.ins = << <<"180000.0", "-3960000.0", "50", "2015.25">> >>])
 >>
 
